@@ -32,12 +32,11 @@ Proof.
   cbv [c_result uac promote int_represents is_signed width crank w_char w_int andb]. decide_cmp. reflexivity.
 Qed.
 
-(* `x ? i : u` with two types of one rank: the first operand's type is taken (C and C++, every platform) *)
-Theorem conditional_mixed_sign_refuted : forall w cpp, strict w ->
-  ctype_of (result_type OTernary (vt_of CInt) (vt_of CUInt)) = Some CInt /\ c_result cpp w CCond CInt CUInt = CUInt.
-Proof.
-  intros w cpp H. destruct w as [wc ws wi wl wll cs]. split; [reflexivity|]. destruct cpp; reflexivity.
-Qed.
+(* `x ? i : u` with two types of one rank: unsigned int in C and C++ (the former witness, before /repo 513f3e3) *)
+Example conditional_mixed_sign_now : forall cpp,
+  ctype_of (result_type OTernary (vt_of CInt) (vt_of CUInt)) = Some CUInt /\
+  c_result cpp (widths_of plat_unix64) CCond CInt CUInt = CUInt.
+Proof. intros cpp. split; [reflexivity | destruct cpp; reflexivity]. Qed.
 
 (* ---- integer literals: the two former witnesses (before /repo 75f7975) now get the C type *)
 Example literal_hex_2_32_unix64 : ctype_of (literal_type plat_unix64 false false 0 4294967296) = Some CLong.
